@@ -19,6 +19,7 @@
                        leaves -1 there when the ramp is over);   shift_rtrack d k = rshift d 0 (v_on_time_start k + d) k
      shiftable_r t     shiftable, or one of the reservation commands (x.Random, x.onNote / x.onCycle, v.onTime, controller
                        .onTime / .onNote / .onNoteWave / .Frequency, PB.onTime / p.onTime, Cresc / Decresc); blocks of such
+                       (every token of `shiftable` - text metas, Port, TempoChange, SysEx ... included: C14_shift_r_extends)
      shifted_r L n s s'   `shifted` without "nothing is reserved on the track": see C14_shifted_r_means
      calm_r s          calm, but any reservation may be pending EXCEPT a v.onTime ramp
    Vocabulary (PlayFromP.v): retime tp e = e with time - tp; kept tp e = (NoteOn|Voice|CC|Meta|SysEx) at or after tp;
